@@ -102,11 +102,15 @@ def check_packet(run, case):
             run.violation('build:%s:%s' % (framing, k), case, 'packet %s, reference %s' % (pkt.hex()[:120], want.hex()[:120]))
         ok = False
     # ---- round trip through a fresh receiver, called the way the front-ends call it
-    for single in ((True,) if framing == 'tls' else (False, True)):
+    # (single omitted = the way the client transaction manager and the TLS server call it: the framer's own default)
+    for single in ((None, True) if framing == 'tls' else (None, False, True)):
         got, exc = [], None
         run.count('roundtrips')
         try:
-            new_framer(framing, d).processIncomingPacket(pkt, got.append, [uid], single=single)
+            if single is None:
+                new_framer(framing, d).processIncomingPacket(pkt, got.append, [uid] if framing != 'tls' else uid)
+            else:
+                new_framer(framing, d).processIncomingPacket(pkt, got.append, [uid], single=single)
         except Exception as e:  # noqa
             exc = e
         why = None
